@@ -148,7 +148,7 @@ Num txs: {"unknown" if self.txs is None else len(self.txs)}
         # interpret this hash as a little-endian number
         proof = little_endian_to_int(h256)
         # return whether this integer is less than the target
-        return proof < self.target()
+        return proof <= self.target()
 
     def validate_merkle_root(self):
         """Gets the merkle root of the tx_hashes and checks that it's
